@@ -20,6 +20,11 @@ def applicable(feats):
     return "tbc-header" in feats
 
 
+def cfg_has_loop(b):
+    import cfg
+    return bool(cfg.back_edges(b))
+
+
 def check(ctx, rep):
     # "the receiver recovers the sender's headers": every entry point of this expansion that
     # feeds bytes to the cipher (typed helpers, Read/Write wrappers, facade) must hand the raw
@@ -33,11 +38,18 @@ def check(ctx, rep):
     dh = MOD + "::decrypt::DecrypterHalf"
     enc_fn = ciphers.raw_callee(ctx, eh + "::encrypt", enc_fn)
     dec_fn = ciphers.raw_callee(ctx, dh + "::decrypt", dec_fn)
-    ciphers.step_rule(ctx, rep, enc_fn, "enc", KEYLEN)
-    ciphers.step_rule(ctx, rep, dec_fn, "dec", KEYLEN)
+    inline = {}
+    for half, meth, raw, direction in ((eh, "encrypt", enc_fn, "enc"), (dh, "decrypt", dec_fn, "dec")):
+        mb = ctx.fb.body(half + "::" + meth)
+        has_local_callee = mb is not None and any(t.get("resolved") in ctx.fb.bodies for _, t in mb.calls())
+        if mb is not None and not has_local_callee and cfg_has_loop(mb):
+            # the per-byte step is written in the half's method itself
+            inline[half] = ciphers.step_rule(ctx, rep, half + "::" + meth, direction, KEYLEN, method_of=half)
+        else:
+            ciphers.step_rule(ctx, rep, raw, direction, KEYLEN)
     ciphers.state_census(ctx, rep, eh, eh + "::new", {eh + "::encrypt"})
     ciphers.state_census(ctx, rep, dh, dh + "::new", {dh + "::decrypt"})
-    c07.wiring(ctx, rep, MOD, eh, dh, enc_fn, dec_fn)
+    c07.wiring(ctx, rep, MOD, eh, dh, enc_fn, dec_fn, inline)
     derivs = []
     for half in (eh, dh):
         fn = half + "::new"
